@@ -30,7 +30,8 @@ use crate::seams::{EnvCfg, ScriptedRng, POOL_MENU};
 
 #[derive(Clone, Debug)]
 enum Call {
-    Prove(u64),
+    /// (RNG script, which of the instances: callers prove *different* instances on the shared prover)
+    Prove(u64, usize),
     Verify(usize),
     ProverBytes,
     VerifierBytes,
@@ -70,15 +71,18 @@ struct Shared {
     tape: Tape,
     msgs: Vec<Msg>,
     plans: Vec<Vec<(Call, Outcome, EnvCfg)>>,
+    /// further honest instances of the same circuit (other witness and public-input values)
+    tapes: Vec<Tape>,
     label: Vec<u8>,
     run: u64,
 }
 
 fn exec(sh: &Shared, call: &Call, env: &EnvCfg) -> Outcome {
     match call {
-        Call::Prove(seed) => {
+        Call::Prove(seed, inst) => {
             let mut rng = ScriptedRng::new(*seed);
-            match deploy::prove(&sh.prover, &sh.prog, &sh.tape, &mut rng, PlonkVersion::V3, env) {
+            let tape = if *inst == 0 { &sh.tape } else { &sh.tapes[(*inst - 1) % sh.tapes.len()] };
+            match deploy::prove(&sh.prover, &sh.prog, tape, &mut rng, PlonkVersion::V3, env) {
                 Ok((p, _)) => Outcome::Bytes(proof_bytes(&p)),
                 Err(e) => Outcome::Bytes(format!("{:?}", e).into_bytes()),
             }
@@ -244,7 +248,13 @@ fn build_shared_inner(seed: u64, run: u64, thorough: bool, st: &mut Stats) -> Op
     };
     let has_second = second.is_some();
     let callers = if thorough { 2 + w.usize(15) } else { 2 + w.usize(3) };
-    let mut sh = Shared { second, prover, verifier, pp, prog: sc.prog.clone(), tape: sc.tape.clone(), msgs, plans: Vec::new(), label: sc.label.clone(), run };
+    let tapes: Vec<Tape> = (0..3)
+        .map(|_| {
+            let mut tr = Rng::new(w.u64());
+            crate::program::honest_tape(&sc.prog, &mut tr)
+        })
+        .collect();
+    let mut sh = Shared { tapes, second, prover, verifier, pp, prog: sc.prog.clone(), tape: sc.tape.clone(), msgs, plans: Vec::new(), label: sc.label.clone(), run };
     let mut plans = Vec::new();
     // label storm (half of the scenarios): every caller starts with a call under a label the
     // process has never seen, most of them the same one, so that the cold path of the label
@@ -258,7 +268,7 @@ fn build_shared_inner(seed: u64, run: u64, thorough: bool, st: &mut Stats) -> Op
                 Call::FreshKind([0u8, 0, 1, 2][w.usize(4)])
             } else {
                 match w.below(10) {
-                0..=2 => Call::Prove(sc.rng_seed ^ w.below(3)),
+                0..=2 => Call::Prove(sc.rng_seed ^ w.below(3), w.usize(4)),
                 3..=4 => Call::Verify(w.usize(2)),
                 5 => Call::ProverBytes,
                 6 => Call::VerifierBytes,
